@@ -11,7 +11,7 @@ CONSTANTS MaxInst, MaxFile, Kinds, Full, Cfgs, CatSel
 F(f, d, t) == [f |-> f, pre |-> IF f \in {"user_id", "item_id"} THEN "" ELSE d \o "." \o f, tok |-> t, dv |-> FALSE]
 M(k, d, t) == [k |-> k, pre |-> d \o "." \o k, tok |-> t, vf |-> "ascii"]
 Step(d, call, bad, tag, fs, ks, t) ==
-    [def |-> d, call |-> Svc \o call, bad |-> bad, tag |-> tag, sleep |-> 0, ans |-> "OK",
+    [def |-> d, call |-> Svc \o call, bad |-> bad, tag |-> tag, sleep |-> 0, ans |-> "OK", size |-> "small",
      fields |-> {F(f, d, t) : f \in fs}, md |-> {M(k, d, t) : k \in ks}]
 
 J1 == [name |-> "e1", steps |-> <<Step("e1", "Hello", "none", "e1", {"name"}, {"a"}, "5001")>>]
@@ -47,9 +47,11 @@ S8 == [name |-> "s8", steps |-> <<Step("c8", "Hello", "none", "s8.c8", {"name"},
 Ans(st, a) == [st EXCEPT !.ans = a]
 J11 == [name |-> "e11", steps |-> <<Ans(Step("e11", "Hello", "none", "e11", {"name"}, {"a"}, "5011"), "UNAVAILABLE")>>]
 S9 == [name |-> "s9", steps |-> <<Ans(Step("c9", "Hello", "none", "s9.c9", {"name"}, {"b"}, ""), "UNAVAILABLE"), TailStep("s9")>>]
+\* a LONG entry: a string field of more than 4 KiB
+J12 == [name |-> "e12", steps |-> <<[Step("e12", "Hello", "none", "e12", {"name"}, {"a"}, "5012") EXCEPT !.size = "k4f"]>>]
 MainCat == [json |-> {J1, J2, J3, J4, J5, J6}, scn |-> {S1, S2, S3, S4, S5}]
 \* (the second catalogue: metadata forms and error answers; J8 / J10 / S7 are covered by the generated case space)
-MdCat   == [json |-> {J7, J9, J11}, scn |-> {S6, S8, S9}]
+MdCat   == [json |-> {J7, J9, J11, J12}, scn |-> {S6, S8, S9}]
 Cat(k) == CatSel[k]
 Files(k) == UNION {[1..n -> Cat(k)] : n \in 1..MaxFile}
 
@@ -70,7 +72,7 @@ AllKeys == <<"a", "A", "b", "B", "auth", "Auth", "AUTH", "x-bin", "X-Bin", "payl
 MdSeqU(S, U) == LET sel == SelectSeq(AllKeys, LAMBDA k : k \in S)
                 IN [i \in 1..Len(sel) |-> [k |-> sel[i], vf |-> IF sel[i] \in U THEN "utf8" ELSE "ascii"]]
 MdSeq(S) == MdSeqU(S, {})
-Abs(m, fs, mds, bad, st, nu) == [call |-> m, fields |-> fs, md |-> MdSeq(mds), bad |-> bad, style |-> st, num |-> nu, dflt |-> {}, ans |-> "OK"]
+Abs(m, fs, mds, bad, st, nu) == [call |-> m, fields |-> fs, md |-> MdSeq(mds), bad |-> bad, style |-> st, num |-> nu, dflt |-> {}, ans |-> "OK", size |-> "small"]
 \* what the SPECIFICATION says about an entry: declared bad, or metadata that cannot be attached (GrpcWire!Bad)
 AbsBad(a) == IF a.bad # "none" THEN a.bad ELSE IF \E i \in DOMAIN a.md : ~MdLegal(a.md[i]) THEN "badmd" ELSE "none"
 \* metadata key forms: other cases, several entries under one wire key, binary values, entries that cannot be attached
@@ -98,7 +100,17 @@ UnknownField == {Abs(m, InputType(m), {}, "illtyped", "unknownfield", "rot") : m
 Answered == {[Abs("Hello", InputType("Hello"), mds, "none", "rot", "rot") EXCEPT !.ans = a] : a \in Statuses \ {"OK"}, mds \in {{"a"}}}
             \cup {[Abs("Order", InputType("Order"), {"auth", "b"}, "none", "rot", "rot") EXCEPT !.ans = a] : a \in {"UNAVAILABLE", "RESOURCE_EXHAUSTED", "ABORTED"}}
             \cup {[Abs("Stats", <<>>, {"a"}, "none", "rot", "rot") EXCEPT !.ans = "UNAVAILABLE"]}
+\* LONG entries (GrpcWire: Size): a string field / a metadata value of more than 4 KiB, a field of more than 64 KiB (only in
+\* files read with maxammosize raised above it: Fit); with and without further fields / metadata; one answered with an error
+Sized(a, z) == [a EXCEPT !.size = z]
+Long == {Sized(Abs("Hello", InputType("Hello"), mds, "none", "rot", "rot"), z) : mds \in {{}, {"a"}}, z \in {"k4f", "k64f"}}
+        \cup {Sized(Abs("Hello", InputType("Hello"), {"a", "b"}, "none", "rot", "rot"), "k4m"),
+              Sized(Abs("Stats", <<>>, {"auth"}, "none", "rot", "rot"), "k4m"),
+              Sized(Abs("Order", InputType("Order"), {"auth", "b"}, "none", "rot", "rot"), "k4f"),
+              Sized(Abs("Auth", InputType("Auth"), {}, "none", "rot", "rot"), "k64f"),
+              Sized([Abs("Hello", InputType("Hello"), {"b"}, "none", "rot", "rot") EXCEPT !.ans = "NOT_FOUND"], "k4f")}
 GoodSet == {a \in GoodAbs : a.fields \in FieldSubsets(a.call)} \cup NameClash \cup DefaultSet \cup {a \in MdForms : AbsBad(a) = "none"} \cup Answered
+           \cup Long
 BadSet  == {Abs("Hello", <<>>, mds, "unknown", "rot", "rot") : mds \in {{}, {"a"}, {"a", "b", "auth"}}}
            \cup {a \in {Abs(m, fs, mds, "illtyped", "rot", "rot") : m \in Methods,
                         fs \in UNION {FieldSubsets(mm) : mm \in Methods}, mds \in {{}, {"b"}}} :
@@ -128,7 +140,7 @@ Expect(a) == [received |-> AbsBad(a) = "none", ok_samples |-> IF AbsBad(a) = "no
 EntriesOut == [i \in 1..N |-> Entry(i) @@ [expect |-> Expect(Woven[i])]]
 \* every scenario is <entry, tail>; the tail call carries a templated payload field and all three
 \* templated metadata keys, so every scenario shot of every instance renders the SAME shared step
-IsTail(a) == a.call = "Hello" /\ Len(a.fields) = 1 /\ a.md = MdSeq({"a", "b", "auth"}) /\ a.bad = "none"
+IsTail(a) == a.call = "Hello" /\ Len(a.fields) = 1 /\ a.md = MdSeq({"a", "b", "auth"}) /\ a.bad = "none" /\ a.size = "small" /\ a.ans = "OK"
 TailId == CHOOSE i \in 1..N : IsTail(Woven[i]) /\ \A j \in 1..(i - 1) : ~IsTail(Woven[j])
 \* VERIF_SEED rotates the file: a different neighbourhood for every entry, another first/last entry
 Shift == (atoi(IOEnv.VERIF_SEED) * 37) % N
@@ -140,21 +152,25 @@ BadFirst == BadIdx \o SelectSeq(Fwd, LAMBDA i : AbsBad(Woven[i]) = "none")
 Scn(o) == SelectSeq(o, LAMBDA i : Woven[i].bad # "undecodable")
 \* templates exist in scenarios only
 Jsn(o) == SelectSeq(o, LAMBDA i : Woven[i].bad # "tmplfail")
+\* an entry of more than 64 KiB is an entry of files read with maxammosize (mx, bytes; 0 = the default) raised above it
+MaxAmmoBig == 262144
+Fit(o, mx) == SelectSeq(o, LAMBDA i : Woven[i].size # "k64f" \/ mx > 0)
 \* the second tail: Hello{name} WITHOUT metadata -- scenarios alternate between the two tails, so that consecutive
 \* calls of one gun have different, also disjoint and empty, metadata key sets
-IsTail0(a) == a.call = "Hello" /\ Len(a.fields) = 1 /\ a.md = <<>> /\ a.bad = "none"
+IsTail0(a) == a.call = "Hello" /\ Len(a.fields) = 1 /\ a.md = <<>> /\ a.bad = "none" /\ a.size = "small" /\ a.ans = "OK"
 Tail0Id == CHOOSE i \in 1..N : IsTail0(Woven[i]) /\ \A j \in 1..(i - 1) : ~IsTail0(Woven[j])
 \* a run: kind, shared-client (with `clients` pooled clients), instances, file order, extra scenario shots,
 \* refl: reflection served on ANOTHER port by ANOTHER server (reflect_port), timeout (ms, 0 = the 120 s default
 \* of the driver), sleeps: think time (ms) after step 1 and step 2 of the <entry, tail, tail> scenarios
 Run(k, s, c, n, o, x, r) == [kind |-> k, shared |-> s, clients |-> c, inst |-> n, order |-> o, extra |-> x, refl |-> r,
-                             timeout |-> 0, sleeps |-> <<>>]
+                             timeout |-> 0, sleeps |-> <<>>, maxammo |-> 0]
+JRun(s, c, n, o, r, mx) == [Run("json", s, c, n, Fit(Jsn(o), mx), 0, r) EXCEPT !.maxammo = mx]
 \* "within the configured timeout" is per call: timeout T, think time 0.6 T + 0.6 T between three fast calls
 SlowT == 1000
 SlowRun == [Run("scn", FALSE, 1, 4, SubSeq(Scn(SelectSeq(Fwd, LAMBDA i : AbsBad(Woven[i]) = "none")), 1, 4), 0, FALSE)
             EXCEPT !.timeout = SlowT, !.sleeps = <<(SlowT * 6) \div 10, (SlowT * 6) \div 10>>]
-Runs == <<Run("json", FALSE, 1, 1, Jsn(Fwd), 0, FALSE), Run("json", TRUE, 1, 2, Jsn(Rev), 0, TRUE), Run("json", FALSE, 1, 3, Jsn(BadFirst), 0, TRUE),
-          Run("json", TRUE, 3, 1, Jsn(BadFirst), 0, TRUE), Run("json", FALSE, 1, 2, Jsn(Fwd), 0, FALSE), Run("json", TRUE, 2, 3, Jsn(Rev), 0, FALSE),
+Runs == <<JRun(FALSE, 1, 1, Fwd, FALSE, 0), JRun(TRUE, 1, 2, Rev, TRUE, MaxAmmoBig), JRun(FALSE, 1, 3, BadFirst, TRUE, 0),
+          JRun(TRUE, 3, 1, BadFirst, TRUE, MaxAmmoBig), JRun(FALSE, 1, 2, Fwd, FALSE, MaxAmmoBig), JRun(TRUE, 2, 3, Rev, FALSE, 0),
           Run("scn", FALSE, 1, 1, Scn(Fwd), 0, TRUE), Run("scn", FALSE, 1, 2, Scn(Rev), 40, FALSE), Run("scn", FALSE, 1, 3, Scn(BadFirst), N, FALSE),
           SlowRun>>
 CaseDoc == [entries |-> EntriesOut, tail |-> TailId, tail0 |-> Tail0Id, runs |-> Runs]
